@@ -44,7 +44,7 @@ def plan_role(it):
             lets[pat[1]].append(st[2])
     params = set()
     for inp in (it.get("sig") or {}).get("inputs", []):
-        if inp and inp[0] != "self" and is_node(inp[0]) and re.search(r"(^|[^\w])Plan([^\w]|$)", (inp[1] or "")):
+        if inp and inp[0] != "self" and is_node(inp[0]) and re.search(r"(^|[^\w])Plan([^\w]|$)|(Vec<|\[)Box<dynMechFunction>", (inp[1] or "").replace(" ", "")):
             params |= {b[1] for b in find(inp[0], "pident")}
     memo = {}
 
@@ -101,13 +101,39 @@ class StepRun:
     def is_plan_loop(self, lid):
         return any(x[0] == "field" and x[2] == "plan" for x in A.subvalues(self.I.loops[lid]["src"]))
 
+    def by_position(self, lid):
+        """the plan P when the loop walks it by position (`for i in 0..P.len()`), else None"""
+        src = self.I.loops[lid]["src"]
+        if src[0] == "range" and src[2][0] == "m" and src[2][2] == "len" and not src[2][3]:
+            return src[2][1]
+        return None
+
+    def whole_traversal(self, lid):
+        src = self.I.loops[lid]["src"]
+        if src[0] != "range":
+            return True
+        return self.by_position(lid) is not None and src[1] == ("int", 0) and src[3] is False
+
+    def plan_element(self, lid):
+        """the value that denotes `the current plan step` inside the traversal"""
+        src = self.I.loops[lid]["src"]
+        p = self.by_position(lid)
+        if p is not None:
+            return ("index", p, ("elem", src, lid))
+        return ("elem", src, lid)
+
 
 def run(F, rep, tier):
     rep.rule("C19-R1", "Interpreter::step: counted forward passes over the whole plan / a single step")
     rep.rule("C19-R2", "non-assignment solve bodies are idempotent: write only their output, never accumulate into it or append without clearing")
     rep.rule("C19-R3", "the plan is append-only")
     rep.rule("C19-R4", "ordered value containers; no clock/RNG reachable from kernels")
-    items = F.syn("mech_interpreter.lib")
+    check_step(F.syn("mech_interpreter.lib"), rep)
+    run_rest(F, rep, tier)
+
+
+def check_step(items, rep):
+    """C19-R1 on Interpreter::step found among `items`"""
     step = [it for it in items if it["k"] == "method" and it["name"] == "step" and it["self"] == "Interpreter"]
     if rep.check(len(step) == 1, "C19-R1", "anchor:step", "Interpreter::step not found"):
         sr = StepRun(items, step[0])
@@ -128,14 +154,16 @@ def run(F, rep, tier):
                 for g in inner:
                     it_ = A.show(I.loops[g]["src"]) + "".join(".%s()" % a for a in I.loops[g]["adapt"]) + (".filter(..)" if I.loops[g].get("conds") else "")
                     adapt = [a for a in I.loops[g]["adapt"] if not (a == "zip" and A.zip_same_length(I, g))]
-                    rep.check(sr.is_plan_loop(g) and not adapt and not I.loops[g].get("conds"), "C19-R1", "step:forward-whole-plan",
+                    rep.check(sr.is_plan_loop(g) and sr.whole_traversal(g) and not adapt and not I.loops[g].get("conds"), "C19-R1", "step:forward-whole-plan",
                               "step(0, n) iterates the plan as `%s` (not a forward pass over the whole plan)" % it_, sample={"iterator": it_})
                     solves = [e for e in S if e["loops"] and e["loops"][-1] == g]
-                    rep.check(len(solves) == 1 and solves[0]["recv"] == ("elem", I.loops[g]["src"], g), "C19-R1", "step:solves-each-step-once", "each plan step is solved %d times per pass" % len(solves))
+                    rep.check(len(solves) == 1 and solves[0]["recv"] == sr.plan_element(g), "C19-R1", "step:solves-each-step-once", "each plan step is solved %d times per pass" % len(solves))
             else:
                 rep.check(len(S) == 1, "C19-R1", "step:single-step-solved-once-per-count", "step(i, n) solves the selected step %d times per count" % len(S))
         rep.check(n_whole >= 1, "C19-R1", "step:whole-plan-branch", "step(0, n) no longer runs the whole plan")
 
+
+def run_rest(F, rep, tier):
     # ---- R2
     S = X.load_fxn_structs(F, CRATES)
     n = 0
